@@ -119,7 +119,10 @@ type Plan struct {
 	Concurrent bool    `json:"concurrent"`
 	Strategy   int     `json:"strategy"` // 0 random walk, 1..3 PCT depth
 	Legal      bool    `json:"legal"`    // environment delivers only legal transport transitions
-	Ops        []Op    `json:"ops"`
+	// LiveShutdown: odd reports may include SHUTDOWN for a connection the
+	// balancer did not remove (never done by grpc-go; C05 only, see run.go)
+	LiveShutdown bool `json:"live_shutdown,omitempty"`
+	Ops          []Op `json:"ops"`
 	// Suffix: concurrent plans only - a short serial operation list executed with
 	// the full model after the burst has quiesced and healed (fresh keys only).
 	Suffix []Op `json:"suffix,omitempty"`
@@ -325,6 +328,9 @@ func Generate(r *rand.Rand, profile string, concurrent bool, av Avoid) *Plan {
 	w := profiles[profile](r, p)
 	if w.oddPct > 0 && r.IntN(2) == 0 {
 		p.Legal = false
+		if profile == "chaos" && !concurrent && r.IntN(3) == 0 {
+			p.LiveShutdown = true
+		}
 	}
 	if concurrent {
 		p.Strategy = r.IntN(4)
